@@ -349,6 +349,56 @@ def direction_sweep(res: Result, counter: list[int]) -> dict[str, Any]:
     }
 
 
+def dispatch_sweep(res: Result, counter: list[int]) -> int:
+    """Receive side of 'positional lookup selects the right class for every id and nothing else is present': every declared id, and the
+    ids that would alias onto a declared one if a byte of the type were lost, through both frame helpers of a connected session."""
+    from aioesphomeapi.core import MESSAGE_TYPE_TO_PROTO
+
+    from .. import noise_ref  # noqa: F401
+    from ..world import mk  # noqa: F401
+
+    ids = env.proto_ids()
+    n = 0
+    for noise in (False, True):
+        w = ConnWorld(noise=noise)
+        try:
+            w.connect_fully()
+            got: list[Any] = []
+            w.conn.add_message_callback(got.append, tuple(MESSAGE_TYPE_TO_PROTO.values()))
+            internal = {"DisconnectRequest", "PingRequest", "GetTimeRequest"}
+            hi = max(ids)
+            cands = sorted(set(ids) | {0, hi + 1, hi + 2, 255, 256, 65535} | {i + 256 for i in ids} | {i + 512 for i in ids} | {i << 8 for i in ids if (i << 8) <= 65535})
+            for t in cands:
+                name = ids.get(t)
+                if name == "DisconnectRequest":
+                    continue  # ends the session (C12 covers it)
+                del got[:]
+                if noise:
+                    assert w.ndev is not None
+                    frame = w.ndev.data_frame(t, b"")
+                else:
+                    from .. import wire as _wire
+
+                    frame = _wire.encode_frame(t, b"")
+                w.io_chunk(w.sock, frame)
+                w.drain()
+                n += 1
+                counter[0] += 1
+                names = [type(m).__name__ for m in got]
+                tag = "noise" if noise else "plain"
+                if name is not None and names != [name]:
+                    res.add(f"dispatch:{tag}:{t}", f"{tag}: a frame of type {t} ({name}) was dispatched as {names}")
+                elif name is None and names:
+                    res.add(f"dispatch:{tag}:undeclared:{t}", f"{tag}: a frame of undeclared type {t} was dispatched as {names}")
+                if w.conn.connection_state.name != "CONNECTED":
+                    res.add(f"dispatch:{tag}:{t}:closed", f"{tag}: the session ended after a frame of type {t} with an empty payload")
+                    break
+            del internal
+        finally:
+            w.close()
+    return n
+
+
 def run(tier: str, seed: int) -> Result:
     env.load()
     import os
@@ -367,7 +417,9 @@ def run(tier: str, seed: int) -> Result:
         counter[0] += 1
         if getattr(api_options_pb2, nm).number != ext.get(nm):
             res.add(f"api_options:ext:{nm}", f"extension {nm}: text {ext.get(nm)} != descriptors {getattr(api_options_pb2, nm).number}")
+    dispatched = dispatch_sweep(res, counter)
     sweep = direction_sweep(res, counter)
+    sweep["frames_dispatched_by_id"] = dispatched
     if not res.violations and (len(ids) < 100 or sweep["api_calls"] < 150 or len(sweep["types_sent"]) < 40):
         raise HarnessError(f"vacuous: ids={len(ids)} sweep={sweep['api_calls']} sent={len(sweep['types_sent'])}")
     res.coverage = {
